@@ -194,7 +194,8 @@ PROPS = {
                r_absint.a01c_too_small, r_winv.a04_window_invariant, r_winv.a06_index_methods, r_absint.a02_next_with_facts, r_counters.s08b_bounded_panicking_counters],
         feature_sets=_sets(['default'], ['default', 'u16', 'ci', 'unsafe']),
         rules_thorough=[lambda ctx: r_absint.a01_constructors(ctx, groups=('method-new', 'ma-init', 'config-init', 'config-validate', 'config-set', 'parser'), fs='u16', rule_id='A01@u16', min_entries=165), on_build(r_init.s12_validate_dominates_init, 'ci'),
-                        on_build(r_absint.a02_next_with_facts, 'u16'), on_build(r_absint.a02_next_with_facts, 'unsafe')],
+                        on_build(r_absint.a02_next_with_facts, 'u16'), on_build(r_absint.a02_next_with_facts, 'unsafe'),
+                        on_build(r_winv.a06_index_methods, 'u16'), on_build(r_winv.a06_index_methods, 'ci'), on_build(r_winv.a04_window_invariant, 'u16')],
         explanation=('(S12) in every IndicatorConfig::init (37), each construction of Ok(instance) is dominated by the true branch of a '
                      'test on self.validate(), the false branch reaches no Ok, and the configuration is not written afterwards: init '
                      'returns Err whenever validate() is false. (A01) interval x relation abstract interpretation of the monomorphic MIR '
